@@ -77,6 +77,15 @@ def section_lines(draw, sec, state, stats):
             kind = "comment"
         sep = draw(st.sampled_from([" ", "  ", "\t", "   "]))
         lead = draw(st.sampled_from(["", "", "  ", "\t"]))
+        if sec not in ("moleculetype", "atoms", "bonds", "constraints", "pairs") and draw(st.integers(0, 24)) == 0:
+            # a very long line: an exclusion list with well over a thousand indices, or a very long trailing comment
+            nlong = draw(st.sampled_from([900, 1400, 2500]))
+            if draw(st.booleans()):
+                lines.append(" ".join(str(i) for i in range(1, nlong)))
+            else:
+                lines.append("1 2 3 ; " + "long comment " * (nlong // 2))
+            stats.add("long-line")
+            continue
         if kind.startswith("content"):
             body = lead + sep.join(draw(content_tokens(sec, state)))
             if kind == "content+c":
